@@ -116,8 +116,10 @@ def install_lock_probe(loop_holder):
 
     async def acquire(self):
         fast = (not self._locked and (self._waiters is None or all(w.cancelled() for w in self._waiters)))
-        if not fast and loop_holder.get('loop') is not None:
-            loop_holder['loop'].lock_slow_path = True
+        if not fast:
+            lp = events._get_running_loop()
+            if lp is not None and hasattr(lp, 'lock_slow_path'):
+                lp.lock_slow_path = True
         return await orig(self)
 
     locks.Lock.acquire = acquire
